@@ -3,3 +3,5 @@ import Uniseg.Utf8
 import Uniseg.Lookup
 import Uniseg.Impl.Transitions
 import Uniseg.Impl.Loops
+import Uniseg.Spec.Apply
+import Uniseg.Explore
